@@ -3,7 +3,7 @@ from .. import simcheck
 
 
 def main(tier, seed):
-    rep = simcheck.sim_main("C12", tier, seed, ["F5:priority,priority-pool@1,deep:priority,preempt:priority,sibling:priority,twice:priority,capwait:priority-pool,scale:priority"] if tier == "quick" else ["F5:priority,priority-pool,deep:priority,busy:priority,preempt:priority,sibling:priority,sibling:priority-pool,ratio:priority,twice:priority,capwait:priority-pool,scale:priority,scale:priority-pool"])
+    rep = simcheck.sim_main("C12", tier, seed, ["F5:priority,priority-pool@1,deep:priority,preempt:priority,sibling:priority,twice:priority,retrypreempt:priority,capwait:priority-pool,scale:priority"] if tier == "quick" else ["F5:priority,priority-pool,deep:priority,busy:priority,preempt:priority,sibling:priority,sibling:priority-pool,ratio:priority,twice:priority,retrypreempt:priority,capwait:priority-pool,scale:priority,scale:priority-pool"])
     return rep.finish()
 
 
